@@ -10,7 +10,7 @@ import re
 import replay
 import vlib
 
-OP_POINTS = ("idle", "http.uc", "http.ev", "inst.plan", "pol.start", "inst.install", "pol.rbneeded")
+OP_POINTS = ("idle", "http.uc", "http.ev", "http.ping", "inst.plan", "pol.start", "inst.install", "pol.rbneeded")
 STIMS = ("fire", "ctl", "clock", "crash", "restart", "end", "drop", "hold")
 
 
